@@ -13,6 +13,7 @@ import FerretVerif.Drv.Core
 import FerretVerif.Drv.Cfg
 import FerretVerif.Drv.Mut
 import FerretVerif.Drv.Lexer
+import FerretVerif.Drv.Diag
 
 open FerretVerif
 
@@ -69,6 +70,8 @@ def main (args : List String) : IO UInt32 := do
   | ["rt"] => eachLineState ({} : RtState) stepRt; return 0
   | ["depgraph"] => eachLine cmdDepGraph; return 0
   | ["lex"] => eachLine cmdLex; return 0
+  | ["diag-bag"] => eachLine cmdDiagBag; return 0
+  | ["diag-sort"] => eachLine cmdDiagSort; return 0
   | ["sched"] => eachLine cmdSched; return 0
   | ["toml-fmt"] => eachLine cmdTomlFmt; return 0
   | ["toml-parseval"] => eachLine cmdTomlParseVal; return 0
